@@ -154,7 +154,10 @@ CLAIMED = {
              "(raw_set_partial, raw_delete_partial), and a reported hash is absent and on the requested path / the normalisation "
              "sibling (raw_set_missing_on_path, raw_delete_missing_on_path); the raw-level traverse / get over rlp-decoded nodes return "
              "the tree-level result or the FIRST hashed node on the path that is absent, with the exact nibbles consumed "
-             "(raw_traverse_partial, raw_get_partial) - word for word what opGet/opTraverse report. Tie: result or every exception field, state after the "
+             "(raw_traverse_partial, raw_get_partial) - word for word what opGet/opTraverse report; and for EVERY input (any raw node, "
+             "database, key) a raw-level _set/_delete/set/delete that stops at a missing node has written nothing "
+             "(raw_failed_set_writes_nothing, raw_failed_delete_writes_nothing, raw_failed_op_leaves_db, over the transcription that "
+             "returns the state at exception exit, proved equal to the other one on every input: rawT_*_agrees). Tie: result or every exception field, state after the "
              "failure, retry loop run to convergence, inside and outside squash_changes; the raw-level set/delete, get and traverse "
              "are run on the same incomplete databases (reported node, consumed nibbles, result).",
         technique="Lean 4 proof (event-order invariant ReadsFirst, executor case analysis) + correspondence check with node removal",
@@ -173,7 +176,8 @@ CLAIMED = {
              "tree-level result, saves exactly the listed nodes in order and raises exactly when the tree level does "
              "(Raw.bin_set_refines, bin_set_blank); threaded over whole histories of accepted calls it returns the root of the "
              "tree-level history and a database storing that whole tree, and BinaryTrie.get over that database returns the map "
-             "model's value (Raw.bin_history, bin_history_tree, bin_history_get). That the kv/branch/leaf "
+             "model's value (Raw.bin_history, bin_history_tree, bin_history_get); a call refused with NodeOverrideError has saved nothing and the "
+             "database is add-only, for every input (Raw.bin_refused_saves_nothing, bin_db_add_only, binT_agrees). That the kv/branch/leaf "
              "byte encoding is the specified one is pinned by the independent canonical encoder of the harness and C16. Tie: outcome, "
              "root, exact database, get/exists after every call; old roots re-read through the Lean Layer-D reader; the raw-level run "
              "on its own root and database alongside every history (root per call, database, lookups).",
